@@ -762,7 +762,7 @@ func zc43Explore(t *testing.T, name string, maxDepth int, tpModes []int, globalP
 			// (call kind and trace-context variant are in the detail, not in the signature)
 			where := fmt.Sprintf("C43:%s:%s:%s", transport, u.Role, class)
 			desc := fmt.Sprintf("unit %d (%s %s of call %d %s, %s, tracestate=%v, tracing=%v, metrics=%v, global-propagator=%v, ambient-span=%v; %d dispatch(es), %s)",
-				ui, transport, u.Role, u.Call, u.Kind.Name, zc43TPNames[call.TP], call.TState, tracing, metrics, globalProp, len(disp), class)
+				ui, transport, u.Role, u.Call, u.Kind.Name, zc43TPNames[call.TP], call.TState, tracing, metrics, globalProp, ambient, len(disp), class)
 			var so []string
 			if tracing {
 				if len(u.spans) != len(disp) {
@@ -773,7 +773,8 @@ func zc43Explore(t *testing.T, name string, maxDepth int, tpModes []int, globalP
 					if e == nil {
 						e = &sdkSpan{}
 					}
-					so = append(so, fmt.Sprintf("span(rec=%v ends=%d status=%v remote-parent=%v tracestate=%v)", sp.recordingAtStart, sp.ends, e.status, e.parent.IsValid() && e.parent.IsRemote(), e.hasState))
+					so = append(so, fmt.Sprintf("span(rec=%v ends=%d status=%v remote-parent=%v ambient-parent=%v tracestate=%v)", sp.recordingAtStart, sp.ends, e.status,
+						e.parent.IsValid() && e.parent.IsRemote(), e.parent.IsValid() && e.parent.SpanID().String() == zc43AmbientSpanID, e.hasState))
 					if !sp.recordingAtStart {
 						continue // the statement speaks about recording spans only
 					}
@@ -792,7 +793,11 @@ func zc43Explore(t *testing.T, name string, maxDepth int, tpModes []int, globalP
 					}
 					if call.TP == zc43TPValid {
 						if !e.parent.IsValid() || e.parent.SpanID().String() != zc43SpanID(u.Call) || e.traceID != zc43TraceID(u.Call) {
-							x.Failf(where+":not-parented-on-traceparent", "%s: sent traceparent %s but the span has trace id %s and parent span id %s",
+							what := ":not-parented-on-traceparent"
+							if ambient && e.parent.IsValid() && e.parent.SpanID().String() == zc43AmbientSpanID {
+								what = ":parented-on-ambient-span-instead-of-traceparent"
+							}
+							x.Failf(where+what, "%s: sent traceparent %s but the span has trace id %s and parent span id %s",
 								desc, zc43Traceparent(call.TP, u.Call), e.traceID, e.parent.SpanID())
 						}
 					}
